@@ -19,6 +19,14 @@ THEOREMS = [
     "Typedpy.C20.counter_missing_key_map", "Typedpy.C20.counter_missing_key_positional",
     "Typedpy.C20.C20_statement_false", "Typedpy.C20.tables_ok", "Typedpy.C20.pinned_tables_ok", "Typedpy.C20.tables_nonvacuous",
     "Typedpy.C20.linearizable_example",
+    "Typedpy.C20.private_copies_linearizable",
+    "Typedpy.C20.safe_table_linearizable",
+    "Typedpy.C20.no_racy_site_linearizable",
+    "Typedpy.C20.current_tree_linearizable",
+    "Typedpy.C20.model_follows_table",
+    "Typedpy.C20.counter_missing_key_immutable_set",
+    "Typedpy.C20.counter_missing_key_anyof",
+    "Typedpy.C20.counter_wrong_field_named_allof",
 ]
 RULE = ("one case = (shape = class shared by the threads, 2-3 thread operations on distinct instances, schedule family); "
         "stream A: flat collection fields (Array/Deque/Tuple/Set/Map, homogeneous and positional, same field and one item "
